@@ -284,7 +284,9 @@ func (l authLevels) observe(s *sim.Sim, st *sim.Step) {
 	// the validate pages also serve users who are logged in already: a remembered (half-authenticated)
 	// user who proves the account's second factor there is taken to full authentication by the library
 	// — by design ("Look up CurrentUser first…"), and with a credential of that account
-	if k := st.Act.Kind; (k == "totp_validate" || k == "sms_validate") && rec.SessIn["uid"] == uid && rec.SessOut["halfauth"] == "" &&
+	// (the remembered session may also have come into being in this very request: a browser that arrives at
+	// the validate page with nothing but its live remember cookie)
+	if k := st.Act.Kind; (k == "totp_validate" || k == "sms_validate") && (rec.SessIn["uid"] == uid || rememberJustifies(s, st, uid)) && rec.SessOut["halfauth"] == "" &&
 		sim.SessPutAny(rec, "twofactor", strings.SplitN(k, "_", 2)[0]) && secondFactorProven(s, st, uid, k) != "" {
 		l[b] = "full"
 	}
@@ -435,7 +437,7 @@ var c07Templates = []sim.Template{
 func init() {
 	register(&Check{
 		ID: "C07", Level: "exploration",
-		Rule:  "histories of issue/use/replay/theft/logout/password-reset over accounts whose identifiers come from a hostile corpus (';', ';;', NUL, non-ASCII, invalid UTF-8 (Latin-1, binary), 320 bytes, trailing ';') and over OAuth2 accounts (identifiers the library builds itself); cookie values presented: live, spent, revoked, stolen onto another browser, net/http-invisible, not base64, no separator, separator first/last, right PID + zero nonce, another account's nonce under this PID, truncated/extended live cookies, 8 KB. Ledger: every rm value seen in a Set-Cookie with the account the server's token table attributes it to, spent/revoked marks. Oracle per request: live cookie from a uid-less browser => put(uid=that account), halfauth, a fresh value, same number of token rows, and no admission to a full-auth route; any other value => no session and the cookie deleted (when the response wrote client state); logged-in browsers are left alone; no rm value is issued unless rm=true was submitted (or rotation); full logins clear halfauth. Plus, in every 100th unit, a theft race on a real server with jittered stores: the remember cookie of each of 6 accounts is presented by 6 session-less browsers released at the same moment, the winner's fresh value is raced again, 12 rounds; per race at most one request is answered as the account and at most one fresh value is handed out. distinct_nontrivial = distinct (action, cookie state, PID class, session state, uid outcome, #values issued, deleted) signatures.",
+		Rule:  "histories of issue/use/replay/theft/logout/password-reset over accounts whose identifiers come from a hostile corpus (';', ';;', NUL, non-ASCII, invalid UTF-8 (Latin-1, binary), 320 bytes, trailing ';') and over OAuth2 accounts (identifiers the library builds itself); cookie values presented: live, spent, revoked, stolen onto another browser, net/http-invisible, not base64, no separator, separator first/last, right PID + zero nonce, another account's nonce under this PID, truncated/extended live cookies, 8 KB. Ledger: every rm value seen in a Set-Cookie with the account the server's token table attributes it to, spent/revoked marks. Oracle per request: live cookie from a uid-less browser => put(uid=that account), halfauth, a fresh value, same number of token rows, and no admission to a full-auth route; any other value => no session and the cookie deleted (when the response wrote client state); logged-in browsers are left alone; no rm value is issued unless rm=true was submitted (or rotation); full logins clear halfauth. Plus, in every 100th unit, a theft race on a real server with jittered stores: the remember cookie of each of 6 accounts is presented by 6 session-less browsers released at the same moment, the winner's fresh value is raced again, 12 rounds; per race at most one request is answered as the account and at most one fresh value is handed out. Every 4th unit runs a second, directed history in which cookies are presented on requests carrying headers browsers, proxies and CDNs add (Sec-Purpose / Purpose / X-Moz prefetch, fetch metadata, X-Forwarded-*, cache headers): rotation and single use do not depend on them. distinct_nontrivial = distinct (action, cookie state, PID class, session state, uid outcome, #values issued, deleted) signatures.",
 		Units: func(t string) int { return tierN(t, 800, 40000) },
 		Run: func(c *RunCtx, unit int) {
 			if unit%100 == 0 {
@@ -476,6 +478,17 @@ func init() {
 				return
 			}
 			sim.RunHistory(s, c07Profile, []sim.Monitor{c07mon{stats: c.Stats, level: map[int]string{}, oauthRm: map[int]bool{}}}, c.Stats, unit)
+			if unit%4 == 3 && len(c.Stats.Violations) == 0 {
+				// a second, directed history (generator of its own): the cookie arrives on requests that carry the
+				// headers browsers, proxies and CDNs add of their own accord (speculative loads, fetch metadata,
+				// forwarding) — single use and rotation are properties of the cookie, not of the request's dressing
+				r2 := Rng(c.Seed, "C07-headers", unit)
+				cfg2 := randomCfg(r2, "auth", "remember", "logout")
+				cfg2.UseExpire, cfg2.TwoFA = false, nil
+				if s2, err := sim.New(cfg2, r2, sim.SeedOpt{Accounts: 3, Browsers: 3}); err == nil {
+					sim.RunHistory(s2, c07HeaderProfile, []sim.Monitor{c07mon{stats: c.Stats, level: map[int]string{}, oauthRm: map[int]bool{}}}, c.Stats, unit)
+				}
+			}
 		},
 		Floors: func(t string) map[string]int {
 			return map[string]int{"rotation:plain-pid": 30, "dead-cookie-presented:spent": 20, "dead-cookie-presented:unknown": 20, "dead-cookie-presented:revoked": 3,
@@ -483,6 +496,30 @@ func init() {
 		},
 		Assumptions: []string{"'issued to' is learned from the server's own token table (the i-th AddRememberToken call of a request pairs with the i-th rm value it set)", "the 'deleted from the client' clause is judged only on responses that wrote client state (a handler that errors under the silent error handler writes nothing; that is C11/C18 territory)"},
 	})
+}
+
+var c07Headers = []string{"Sec-Purpose: prefetch", "Sec-Purpose: prefetch;prerender", "Purpose: prefetch", "X-Purpose: preview", "X-Moz: prefetch",
+	"Sec-Fetch-Dest: document|Sec-Fetch-Mode: navigate|Sec-Fetch-Site: none", "X-Forwarded-For: 203.0.113.9|X-Forwarded-Proto: https", "Save-Data: on|DNT: 1", "Cache-Control: no-cache|Pragma: no-cache", "X-Requested-With: XMLHttpRequest"}
+
+// c07HeaderProfile: issue, present with extra request headers (must rotate like any other presentation), replay the
+// rotated-away value with and without the same headers (must be refused and deleted).
+var c07HeaderProfile = &sim.Profile{
+	W:      map[string]int{"login": 20, "visit": 30, "dropsid": 10, "steal": 15, "logout": 5},
+	Cls:    map[string]map[string]int{"login": {"ok": 90, "wrong": 10}},
+	MinLen: 12, MaxLen: 24, TplProb: 1,
+	Templates: []sim.Template{{Name: "cookie-presented-with-browser-added-headers", F: func(s *sim.Sim) []*sim.Action {
+		if !s.RememberActive() || !s.Cfg.Has("auth") {
+			return nil
+		}
+		v := findAcct(s, func(u *world.User) bool { return u.TOTPSecretKey == "" && u.SMSPhone == "" && u.Confirmed })
+		if v < 0 {
+			return nil
+		}
+		h1, h2 := c07Headers[s.R.Intn(len(c07Headers))], c07Headers[s.R.Intn(len(c07Headers))]
+		return []*sim.Action{act("login", 0, v, "ok", "rm", "true"), act("dropsid", 0, -9, ""), act("visit", 0, -9, "", "route", "/public", "hdr", h1),
+			act("steal", 1, -9, "spent"), act("visit", 1, -9, "", "route", "/public", "hdr", h1), act("steal", 2, -9, "spent"), act("visit", 2, -9, "", "route", "/protected/bare"),
+			act("dropsid", 0, -9, ""), act("visit", 0, -9, "", "route", "/protected/plain", "hdr", h2), act("steal", 1, -9, "spent"), act("visit", 1, -9, "", "route", "/public", "hdr", h2)}
+	}}},
 }
 
 // theftBurst: on a real server (jittered stores) G accounts log in with rm=true; each cookie is then
